@@ -184,3 +184,15 @@ package keeper
 //@   ensures [C12] #c12-orderer-only: err == nil ==> o0.1 && msg.Orderer == o0.0.Orderer && order == o0.0
 //@   ensures [C07] #c07-not-in-placement-batch: err == nil ==> o0.0.BatchId != pr.CurrentBatchId && o0.0.Status != types.OrderStatusCanceled
 //@   ensures [C07] #c07-old-order-can-be-cancelled: o0.1 && K("asset").GetApp(ctx, msg.AppId).1 && msg.Orderer == o0.0.Orderer && o0.0.Status != types.OrderStatusCanceled && o0.0.BatchId != pr.CurrentBatchId ==> err == nil
+
+// Deposit request (C04): all offered coins move from the depositor into the global escrow account and the pending request
+// records exactly those coins.
+//@ func (k Keeper) Deposit
+//@   property C04
+//@   let ge = types.GlobalEscrowAddress
+//@   let w = addr(msg.Depositor)
+//@   requires #params-exist: k.GetGenericLiquidityParams(ctx, msg.AppId).1
+//@   requires #accounts: w != ge
+//@   requires #pool-keyed: k.GetPool(ctx, msg.AppId, msg.PoolId).1 ==> k.GetPool(ctx, msg.AppId, msg.PoolId).0.Id == msg.PoolId && k.GetPool(ctx, msg.AppId, msg.PoolId).0.AppId == msg.AppId
+//@   ensures #c04-deposit-escrowed: result1 == nil ==> forall j :: 0 <= j && j < len(msg.DepositCoins) ==> bal(ge, msg.DepositCoins[j].Denom) == old(bal(ge, msg.DepositCoins[j].Denom)) + msg.DepositCoins[j].Amount && bal(w, msg.DepositCoins[j].Denom) == old(bal(w, msg.DepositCoins[j].Denom)) - msg.DepositCoins[j].Amount && msg.DepositCoins[j].Amount > 0
+//@   ensures #c04-deposit-request-records-escrow: result1 == nil ==> result0.DepositCoins == msg.DepositCoins && result0.Depositor == msg.Depositor && result0.PoolId == msg.PoolId && result0.AppId == msg.AppId && k.GetDepositRequest(ctx, msg.AppId, msg.PoolId, result0.Id).1 && k.GetDepositRequest(ctx, msg.AppId, msg.PoolId, result0.Id).0 == result0
